@@ -21,7 +21,16 @@ from flosim.gen import env_table, SHARES
 from checks.flocommon import COMPONENTS
 
 
-def gen_original(g, name, prefix, others):
+def _side(g):
+    """A side generator seeded by the main generator's state without drawing from it (keeps older programs unchanged)."""
+    import random as _random
+    return _random.Random(int(hashlib.sha256(repr(g.getstate()).encode()).hexdigest()[:16], 16))
+
+
+def gen_original(g, name, prefix, others, P=None, p_clock=0.0):
+    """p_clock: probability that a frame of the original is left by its own clocks ('timeout T' / 'repeat N' / an explicit
+    condition on elapsed or recurred) instead of by a condition on store data; needs the tick period P."""
+    side = _side(g)
     n = g.randint(2, 3)
     frames = []
     for i in range(n):
@@ -38,19 +47,24 @@ def gen_original(g, name, prefix, others):
                 acts.append({"k": "clone", "orig": g.choice(others), "as": "mine" if g.random() < 0.65 else "kd%d" % j, "needs": None})
         if i < n - 1:
             need = g.choice(["counter of framer >= %d" % g.randint(1, 5), "recurred >= %d" % g.randint(0, 3), ".sim.x0 >= %d" % g.randint(0, 3)])
-            acts.append({"k": "raw", "ctx": None, "text": "go next if %s" % need})
+            text = "go next if %s" % need
+            if P is not None and side.random() < p_clock:
+                from flosim.gen import dec
+                text = side.choice(["timeout %s" % dec(side.randint(1, 5) * Fraction(P)), "repeat %d" % side.randint(1, 4),
+                                    "go next if elapsed >= %s" % dec(side.randint(1, 5) * Fraction(P)), "timeout %s" % dec(side.randint(1, 3) * Fraction(P))])
+            acts.append({"k": "raw", "ctx": None, "text": text})
         else:
             acts.append({"k": "raw", "ctx": g.choice(["enter", "recur"]), "text": "done me"})
         frames.append({"name": fn, "over": None, "acts": acts})
     return {"name": name, "sched": "moot", "order": None, "period": None, "first": frames[0]["name"], "frames": frames}
 
 
-def gen_plan(g):
-    P = g.choice(["0.125", "0.25"])
+def gen_plan(g, periods=("0.125", "0.25"), p_clock=0.25):
+    P = g.choice(list(periods))
     ticks = g.randint(8, 30)
-    origs = [gen_original(g, "orig0", "p", [])]
+    origs = [gen_original(g, "orig0", "p", [], P, p_clock)]
     if g.random() < 0.6:
-        origs.append(gen_original(g, "orig1", "q", ["orig0"]))
+        origs.append(gen_original(g, "orig1", "q", ["orig0"], P, p_clock))
     names = [o["name"] for o in origs]
     nframes = g.randint(2, 4)
     frames = []
@@ -79,9 +93,9 @@ def gen_rear_plan(g):
     a child frame of the host razes while the clones run or a pruner leaves clones behind)."""
     P = g.choice(["0.125", "0.25"])
     ticks = g.randint(10, 36)
-    origs = [gen_original(g, "orig0", "p", [])]
+    origs = [gen_original(g, "orig0", "p", [], P, 0.25)]
     if g.random() < 0.6:
-        origs.append(gen_original(g, "orig1", "q", ["orig0"]))
+        origs.append(gen_original(g, "orig1", "q", ["orig0"], P, 0.25))
     names = [o["name"] for o in origs]
     clean = g.random() < 0.6
     rounds = []
@@ -252,7 +266,7 @@ class C12(Check):
                    "whether a razed clone that is 'done' but still entered gets its exit actions is outside this statement (probe razed-while-entered only)",
                    "program B (textual copies as ordinary auxiliaries) is the statement's 'what its original would produce alone'"]
     required_probes = ["insular", "named", "nested", "two-clones-of-one-original", "relative-entry-need", "reared", "razed-all", "razed-first", "razed-last",
-                       "raze-left-others", "raze-spared-non-razeable", "freed-name-taken-again", "dirty-plan", "razed-while-entered", "two-nested-clones-in-one-frame", "nested-named"]
+                       "raze-left-others", "raze-spared-non-razeable", "freed-name-taken-again", "dirty-plan", "razed-while-entered", "two-nested-clones-in-one-frame", "nested-named", "clock-driven-original"]
     quick_runs = 3000
     thorough_runs = 150000
     shrink_fields = []
@@ -285,6 +299,8 @@ class C12(Check):
             out.digest = tr.digest()
             return out
         text = repr(plan)
+        if "'text': 'timeout " in text or "'text': 'repeat " in text:
+            out.probe("clock-driven-original")
         for key, probe in (("'as': 'mine'", "insular"), ("'as': 'nc", "named"), ("'as': 'nr", "named"), ("'as': 'kd", "nested-named")):
             if key in text:
                 out.probe(probe)
